@@ -24,7 +24,8 @@ class Ctx:
         # iterator consumers / adaptors anywhere whose closure calls into the Node / Graph API (`edges.into_iter().try_for_each(|..| connect ..)`)
         for q, b in list(self.F.bodies.items()):
             if b['kind'] != 'Closure' and _k.kernel_params(self.F, b) is None:
-                nb = normalize(self.F, b, only_interesting=True)
+                # the serde writer is a plain walk over members and their owned edges: all of its adaptors are rewritten
+                nb = normalize(self.F, b, only_interesting=(b.get('name') != 'graph_serde_decompose'))
                 if nb is not None:
                     self.F.bodies[q] = nb
         # `ITER.filter(closure)` in a kernel candidate is rewritten into the equivalent loop-with-if form first
@@ -44,6 +45,8 @@ class Ctx:
             self.F, lambda b: _k.kernel_params(self.F, b) is not None or
             (b.get('impl_self_q', '').endswith('::node::Node') and not b.get('impl_trait') and b.get('name') in ('connect', 'try_connect', 'disconnect', 'isolate')) or
             (b.get('impl_trait') in ('serde::de::Visitor', 'serde::Deserialize')) or
+            # the callback dispatcher (Method::exec): private per-kind helpers it calls back to back are part of it
+            ((b.get('impl_self_q') or '').endswith('::node::algo::method::Method') and not b.get('impl_trait')) or
             # node / path iterators and every inherent method of Node: a private constructor / accessor helper shared by them
             # (`fn edge_to(&self, entry) -> Edge`) is part of each of its callers
             (b.get('impl_trait') == 'std::iter::Iterator' and b.get('name') == 'next') or
